@@ -69,6 +69,141 @@ Section Generic.
   Qed.
 End Generic.
 
+(* ================================================================ decoded values have the shape of their type *)
+Definition shape (v : val) (t : ty) : Prop :=
+  match t with
+  | TUint _ | TInt _ => exists z, v = VInt z
+  | TBool => exists b, v = VBool b
+  | TString | TBytes | TAddress | TZts | THash | TFixed _ => exists l, v = VBytes l
+  | TSlice _ | TArray _ _ => exists l, v = VList l
+  end.
+
+Lemma for_each_shape f es output start size v : for_each f es output start size = UOk v -> exists l, v = VList l.
+Proof.
+  unfold for_each. destruct (size <? 0); [discriminate|]. destruct (len output <? _); [discriminate|].
+  unfold ubind. destruct (each_loop _ _ _ _ _); try discriminate. intros E; inversion E. eauto.
+Qed.
+Lemma read_integer_shape u bits w v : read_integer u bits w = UOk v -> exists z, v = VInt z.
+Proof.
+  unfold read_integer. destruct (_ =? 0); [intros E; inversion E; eauto|].
+  destruct (slice_from _ _); [|discriminate]. intros E; inversion E; eauto.
+Qed.
+Lemma read_bool_shape w v : read_bool w = UOk v -> exists b, v = VBool b.
+Proof.
+  unfold read_bool. destruct (slice w 0 31); [|discriminate]. destruct (negb _); [discriminate|].
+  destruct (nth_error w 31); [|discriminate]. destruct (Z.eqb _ 0); [intros E; inversion E; eauto|].
+  destruct (Z.eqb _ 1); [intros E; inversion E; eauto|discriminate].
+Qed.
+Lemma to_go_shape t index output v : to_go t index output = UOk v -> shape v t.
+Proof.
+  destruct t; cbn [to_go shape]; destruct (len output <? _); try discriminate; unfold ubind;
+    try (destruct (slice output index _); [|discriminate]).
+  - apply read_integer_shape.
+  - apply read_integer_shape.
+  - apply read_bool_shape.
+  - destruct (length_prefix_points_to _ _); try discriminate. destruct (slice _ _ _); [|discriminate]. intros E; inversion E; eauto.
+  - destruct (length_prefix_points_to _ _); try discriminate. destruct (slice _ _ _); [|discriminate]. intros E; inversion E; eauto.
+  - destruct (slice _ 12 32); [|discriminate]. intros E; inversion E; eauto.
+  - destruct (slice _ 22 32); [|discriminate]. intros E; inversion E; eauto.
+  - destruct (slice _ 0 32); [|discriminate]. destruct (len _ =? 32); [|discriminate]. intros E; inversion E; eauto.
+  - destruct (slice _ 0 n); [|discriminate]. intros E; inversion E; eauto.
+  - destruct (length_prefix_points_to _ _); try discriminate. destruct (slice_from _ _); [|discriminate]. apply for_each_shape.
+  - apply for_each_shape.
+Qed.
+Lemma unpack_from_shape tys : forall slot data vs, unpack_from tys slot data = UOk vs -> Forall2 shape vs tys.
+Proof.
+  induction tys as [|t r IH]; intros slot data vs; cbn [unpack_from].
+  - intros E; inversion E. constructor.
+  - unfold ubind. destruct (to_go t _ data) eqn:Et; try discriminate.
+    destruct (unpack_from r _ data) eqn:Er; try discriminate. intros E; inversion E; subst.
+    constructor; [eapply to_go_shape; eassumption | eapply IH; eassumption].
+Qed.
+Lemma unpack_args_shape sel tys data vs : unpack_args sel tys data = VOk vs -> Forall2 shape vs tys.
+Proof.
+  unfold unpack_args, unpack_method. destruct (len data <=? 4); [discriminate|].
+  destruct (slice data 0 4); [|discriminate]. destruct (bytes_eqb _ sel); [|discriminate].
+  destruct (slice_from data 4); [|discriminate].
+  destruct (unpack_values tys b0) eqn:E; try discriminate. intros Ev; inversion Ev; subst.
+  eapply unpack_from_shape. exact E.
+Qed.
+Definition data_ok (d : bytes) : Prop := Forall is_byte d /\ len d < MaxData.
+Lemma unpack_args_no_panic sel tys data : Forall wf_ty tys -> tuple_words tys <= MaxTuple -> data_ok data ->
+  unpack_args sel tys data <> VPanic.
+Proof.
+  intros Hw Ht (HB & HL). unfold unpack_args.
+  pose proof (unpack_method_total sel tys data Hw Ht HB HL) as H.
+  destruct (unpack_method sel tys data); [discriminate|discriminate|contradiction].
+Qed.
+Lemma unpack_empty_no_panic sel data : unpack_empty sel data <> VPanic.
+Proof.
+  unfold unpack_empty. pose proof (unpack_empty_method_total sel data) as H.
+  destruct (unpack_empty_method sel data); [discriminate|discriminate|contradiction].
+Qed.
+
+Ltac shapes :=
+  repeat match goal with
+         | H : Forall2 shape _ (_ :: _) |- _ => inversion H; subst; clear H
+         | H : Forall2 shape _ [] |- _ => inversion H; subst; clear H
+         end;
+  cbn [shape] in *;
+  repeat match goal with H : exists _, _ = _ |- _ => destruct H; subst end.
+Ltac wf_tys := repeat constructor; cbn; try exact I; try lia.
+Ltac ifs := repeat match goal with |- context [if ?c then _ else _] => destruct c end; try discriminate.
+
+(* ValidateSendBlock never panics on the data of a send block *)
+Definition env_ok (e : env) : Prop := c_StakeTimeUnit e <> 0.
+
+Ltac validate_args sel tys :=
+  match goal with
+  | Hd : data_ok _ |- _ =>
+    let E := fresh "E" in
+    destruct (unpack_args sel tys _) as [vs| |] eqn:E;
+    [apply unpack_args_shape in E; shapes; ifs
+    | discriminate
+    | exfalso; revert E; apply unpack_args_no_panic; [wf_tys | vm_compute; discriminate | exact Hd]]
+  end.
+Ltac validate_empty sel :=
+  let E := fresh "E" in
+  destruct (unpack_empty sel _) eqn:E; [ifs | discriminate | exfalso; revert E; apply unpack_empty_no_panic].
+
+Lemma fuse_validate_no_panic e s : data_ok (s_data s) -> fuse_validate e s <> VPanic.
+Proof. intros Hd. unfold fuse_validate. validate_args Sel_plasma_Fuse [TAddress]. Qed.
+Lemma cancel_fuse_validate_no_panic s : data_ok (s_data s) -> cancel_fuse_validate s <> VPanic.
+Proof. intros Hd. unfold cancel_fuse_validate. validate_args Sel_plasma_CancelFuse [THash]. Qed.
+Lemma stake_validate_no_panic e s : env_ok e -> data_ok (s_data s) -> stake_validate e s <> VPanic.
+Proof.
+  intros He Hd. unfold stake_validate. destruct (unpack_args Sel_stake_Stake [TInt 64] (s_data s)) as [vs| |] eqn:E.
+  - apply unpack_args_shape in E; shapes.
+    destruct (_ || _); [discriminate|]. destruct (_ || _); [discriminate|].
+    destruct (c_StakeTimeUnit e =? 0) eqn:Eu; [exfalso; apply He; lia|]. destruct (negb _); discriminate.
+  - discriminate.
+  - exfalso; revert E; apply unpack_args_no_panic; [wf_tys | vm_compute; discriminate | exact Hd].
+Qed.
+Lemma cancel_stake_validate_no_panic s : data_ok (s_data s) -> cancel_stake_validate s <> VPanic.
+Proof. intros Hd. unfold cancel_stake_validate. validate_args Sel_stake_Cancel [THash]. Qed.
+Lemma create_validate_no_panic s : data_ok (s_data s) -> create_validate s <> VPanic.
+Proof. intros Hd. unfold create_validate. validate_args Sel_htlc_Create [TAddress; TInt 64; TUint 8; TUint 8; TBytes]. Qed.
+Lemma reclaim_validate_no_panic s : data_ok (s_data s) -> reclaim_validate s <> VPanic.
+Proof. intros Hd. unfold reclaim_validate. validate_args Sel_htlc_Reclaim [THash]. Qed.
+Lemma unlock_validate_no_panic s : data_ok (s_data s) -> unlock_validate s <> VPanic.
+Proof. intros Hd. unfold unlock_validate. validate_args Sel_htlc_Unlock [THash; TBytes]. Qed.
+Lemma proxy_validate_no_panic sel s : proxy_validate sel s <> VPanic.
+Proof. unfold proxy_validate. validate_empty sel. Qed.
+Lemma mint_validate_no_panic s : data_ok (s_data s) -> mint_validate s <> VPanic.
+Proof. intros Hd. unfold mint_validate. validate_args Sel_token_Mint [TZts; TUint 256; TAddress]. Qed.
+Lemma update_token_validate_no_panic s : data_ok (s_data s) -> update_token_validate s <> VPanic.
+Proof. intros Hd. unfold update_token_validate. validate_args Sel_token_UpdateToken [TZts; TAddress; TBool; TBool]. Qed.
+Lemma burn_validate_no_panic s : burn_validate s <> VPanic.
+Proof. unfold burn_validate. validate_empty Sel_token_Burn. Qed.
+Lemma deposit_qsr_validate_no_panic s : deposit_qsr_validate s <> VPanic.
+Proof. unfold deposit_qsr_validate. validate_empty Sel_common_DepositQsr. Qed.
+Lemma withdraw_qsr_validate_no_panic s : withdraw_qsr_validate s <> VPanic.
+Proof. unfold withdraw_qsr_validate. validate_empty Sel_common_WithdrawQsr. Qed.
+Lemma donate_validate_no_panic s : donate_validate s <> VPanic.
+Proof. unfold donate_validate. validate_empty Sel_common_Donate. Qed.
+Lemma collect_validate_no_panic s : collect_validate s <> VPanic.
+Proof. unfold collect_validate. validate_empty Sel_common_CollectReward. Qed.
+
 (* ================================================================ per-method: validated => no panic *)
 Theorem deposit_qsr_no_panic a s x : deposit_qsr_validate s = VOk x -> deposit_qsr_receive a s <> MPanic.
 Proof. intros H. unfold deposit_qsr_receive. rewrite H. discriminate. Qed.
@@ -146,11 +281,11 @@ Section Tables.
     split.
     - intros a a' HJ Hs _. unfold J_plasma in *. rewrite Hs. exact HJ.
     - intros s. unfold plasma_lookup. repeat destruct (bytes_eqb _ _); discriminate.
-    - intros s m a El HJ Hn Hs. unfold plasma_lookup in El.
+    - intros s m a El HJ Hn Hs. assert (Hd : data_ok (s_data s)) by (split; apply Hs). unfold plasma_lookup in El.
       destruct (bytes_eqb _ Sel_plasma_Fuse); [inversion El; subst m|
         destruct (bytes_eqb _ Sel_plasma_CancelFuse); [inversion El; subst m|discriminate]].
-      + unfold fuse_receive. destruct (fuse_validate e s); discriminate.
-      + unfold cancel_fuse_receive. destruct (cancel_fuse_validate s); try discriminate.
+      + unfold fuse_receive. pose proof (fuse_validate_no_panic e s Hd). destruct (fuse_validate e s); [discriminate|discriminate|contradiction].
+      + unfold cancel_fuse_receive. pose proof (cancel_fuse_validate_no_panic s Hd). destruct (cancel_fuse_validate s); [|discriminate|contradiction].
         destruct (tget _ _); [|discriminate]. destruct (Z.ltb _ _); discriminate.
     - intros s m a a' ds El HJ Hn Hs Em. unfold plasma_lookup in El.
       pose proof (credited_nonneg pstore a s Hn Hs) as Hnc.
@@ -164,7 +299,7 @@ Section Tables.
                       p_fused := tput (p_fused (a_store (credited pstore a s))) ben
                         (u256 (match tget (p_fused (a_store (credited pstore a s))) ben with Some v => v | None => 0 end + s_amount s)) |})).
         { unfold J_plasma. cbn [a_store with_store p_fusions]. apply tall_tput; [exact HJ | apply u256_nonneg]. }
-        repeat split; auto.
+        split; [|split; [|split]]; auto.
         * intros a'' Ea. inversion Ea; subst a''. exact HJ'.
       + unfold cancel_fuse_receive in Em. destruct (cancel_fuse_validate s) as [id| |]; try discriminate.
         rewrite credited_store in Em.
@@ -174,7 +309,7 @@ Section Tables.
         pose proof (HJ _ _ Eg) as Hamt. cbn beta in Hamt.
         assert (Hds : Forall ds_ok [{| d_to := s_from s; d_amount := f_amount ent; d_zts := ZtsQsr; d_data := [] |}]).
         { constructor; [|constructor]. split; cbn; [exact Hamt | intros _; exact zts_qsr_not_zero]. }
-        repeat split; auto.
+        split; [|split; [|split]]; auto.
         intros a'' Ea. unfold J_plasma.
         rewrite (apply_all_store pstore dc _ _ a'' (with_store_nonneg pstore _ _ Hnc) Hds Ea).
         cbn [a_store with_store p_fusions]. apply tall_tdel. exact HJ.
@@ -187,16 +322,16 @@ Section Tables.
     else LNotFound.
   Definition J_stake (a : cacct sstore) : Prop := tall (fun k => 0 <= k_amount k) (a_store a).
 
-  Lemma stake_table_ok e : table_ok sstore dc J_stake (stake_lookup e).
+  Lemma stake_table_ok e : env_ok e -> table_ok sstore dc J_stake (stake_lookup e).
   Proof.
-    split.
+    intros He. split.
     - intros a a' HJ Hs _. unfold J_stake in *. rewrite Hs. exact HJ.
     - intros s. unfold stake_lookup. repeat destruct (bytes_eqb _ _); discriminate.
-    - intros s m a El HJ Hn Hs. unfold stake_lookup in El.
+    - intros s m a El HJ Hn Hs. assert (Hd : data_ok (s_data s)) by (split; apply Hs). unfold stake_lookup in El.
       destruct (bytes_eqb _ Sel_stake_Stake); [inversion El; subst m|
         destruct (bytes_eqb _ Sel_stake_Cancel); [inversion El; subst m|discriminate]].
-      + unfold stake_receive. destruct (stake_validate e s); discriminate.
-      + unfold cancel_stake_receive. destruct (cancel_stake_validate s); try discriminate.
+      + unfold stake_receive. pose proof (stake_validate_no_panic e s He Hd). destruct (stake_validate e s); [discriminate|discriminate|contradiction].
+      + unfold cancel_stake_receive. pose proof (cancel_stake_validate_no_panic s Hd). destruct (cancel_stake_validate s); [|discriminate|contradiction].
         destruct (tget _ _); [|discriminate]. destruct (Z.ltb _ _); discriminate.
     - intros s m a a' ds El HJ Hn Hs Em. unfold stake_lookup in El.
       pose proof (credited_nonneg sstore a s Hn Hs) as Hnc.
@@ -204,7 +339,7 @@ Section Tables.
         destruct (bytes_eqb _ Sel_stake_Cancel); [inversion El; subst m|discriminate]].
       + unfold stake_receive in Em. destruct (stake_validate e s) as [t| |]; try discriminate.
         inversion Em; subst a' ds. clear Em.
-        repeat split; auto.
+        split; [|split; [|split]]; auto.
         intros a'' Ea. inversion Ea; subst a''. unfold J_stake. cbn [a_store with_store].
         apply tall_tput; [exact HJ | apply u256_nonneg].
       + unfold cancel_stake_receive in Em. destruct (cancel_stake_validate s) as [id| |]; try discriminate.
@@ -215,7 +350,7 @@ Section Tables.
         pose proof (HJ _ _ Eg) as Hamt. cbn beta in Hamt.
         assert (Hds : Forall ds_ok [{| d_to := s_from s; d_amount := k_amount ent; d_zts := ZtsZnn; d_data := [] |}]).
         { constructor; [|constructor]. split; cbn; [exact Hamt | intros _; exact zts_znn_not_zero]. }
-        repeat split; auto.
+        split; [|split; [|split]]; auto.
         intros a'' Ea. unfold J_stake.
         rewrite (apply_all_store sstore dc _ _ a'' (with_store_nonneg sstore _ _ Hnc) Hds Ea).
         cbn [a_store with_store]. apply tall_tput; [exact HJ | cbn; lia].
@@ -239,19 +374,19 @@ Section Tables.
     split.
     - intros a a' HJ Hs _. unfold J_htlc in *. rewrite Hs. exact HJ.
     - intros s. unfold htlc_lookup. cbv zeta. repeat destruct (bytes_eqb _ _); discriminate.
-    - intros s m a El HJ Hn Hs. unfold htlc_lookup in El. cbv zeta in El.
+    - intros s m a El HJ Hn Hs. assert (Hd : data_ok (s_data s)) by (split; apply Hs). unfold htlc_lookup in El. cbv zeta in El.
       repeat (match type of El with context [bytes_eqb ?x ?y] => destruct (bytes_eqb x y) end;
               [inversion El; subst m; clear El|]); try discriminate.
-      + unfold create_receive. destruct (create_validate s) as [[[[[hl ex] ty] km] lk]| |]; try discriminate.
+      + unfold create_receive. pose proof (create_validate_no_panic s Hd). destruct (create_validate s) as [[[[[hl ex] ty] km] lk]| |]; [|discriminate|contradiction].
         destruct (Z.leb _ _); discriminate.
-      + unfold reclaim_receive. destruct (reclaim_validate s); try discriminate.
+      + unfold reclaim_receive. pose proof (reclaim_validate_no_panic s Hd). destruct (reclaim_validate s); [|discriminate|contradiction].
         destruct (tget _ _); [|discriminate]. destruct (negb _); [discriminate|]. destruct (Z.ltb _ _); discriminate.
-      + unfold unlock_receive. destruct (unlock_validate s) as [[id pre]| |]; try discriminate.
+      + unfold unlock_receive. pose proof (unlock_validate_no_panic s Hd). destruct (unlock_validate s) as [[id pre]| |]; [|discriminate|contradiction].
         destruct (tget _ _); [|discriminate].
         destruct (_ && _); [discriminate|]. destruct (Z.leb _ _); [discriminate|]. destruct (Z.ltb _ _); [discriminate|].
         destruct (negb _); discriminate.
-      + unfold proxy_receive. destruct (proxy_validate _ s); discriminate.
-      + unfold proxy_receive. destruct (proxy_validate _ s); discriminate.
+      + unfold proxy_receive. pose proof (proxy_validate_no_panic Sel_htlc_DenyProxyUnlock s). destruct (proxy_validate _ s); [discriminate|discriminate|contradiction].
+      + unfold proxy_receive. pose proof (proxy_validate_no_panic Sel_htlc_AllowProxyUnlock s). destruct (proxy_validate _ s); [discriminate|discriminate|contradiction].
     - intros s m a a' ds El HJ Hn Hs Em. unfold htlc_lookup in El. cbv zeta in El.
       pose proof (credited_nonneg hstore a s Hn Hs) as Hnc.
       repeat (match type of El with context [bytes_eqb ?x ?y] => destruct (bytes_eqb x y) end;
@@ -259,7 +394,7 @@ Section Tables.
       + (* create *)
         unfold create_receive in Em. destruct (create_validate s) as [[[[[hl ex] ty] km] lk]| |] eqn:Ev; try discriminate.
         destruct (ex <=? e_now e); [discriminate|]. inversion Em; subst a' ds. clear Em.
-        repeat split; auto.
+        split; [|split; [|split]]; auto.
         intros a'' Ea. inversion Ea; subst a''. unfold J_htlc. cbn [a_store with_store h_entries].
         apply tall_tput; [exact HJ|]. split; cbn; [apply u256_nonneg|].
         (* the call carried a positive amount, so the verifier forced a token *)
@@ -275,7 +410,7 @@ Section Tables.
         destruct (HJ _ _ Eg) as (Hamt & Hz).
         assert (Hds : Forall ds_ok [{| d_to := h_timelocked ent; d_amount := h_amount ent; d_zts := h_zts ent; d_data := [] |}]).
         { constructor; [|constructor]. split; cbn; auto. }
-        repeat split; auto.
+        split; [|split; [|split]]; auto.
         intros a'' Ea. unfold J_htlc.
         rewrite (apply_all_store hstore dc _ _ a'' (with_store_nonneg hstore _ _ Hnc) Hds Ea).
         cbn [a_store with_store h_entries]. apply tall_tdel. exact HJ.
@@ -289,15 +424,15 @@ Section Tables.
         destruct (HJ _ _ Eg) as (Hamt & Hz).
         assert (Hds : Forall ds_ok [{| d_to := h_hashlocked ent; d_amount := h_amount ent; d_zts := h_zts ent; d_data := [] |}]).
         { constructor; [|constructor]. split; cbn; auto. }
-        repeat split; auto.
+        split; [|split; [|split]]; auto.
         intros a'' Ea. unfold J_htlc.
         rewrite (apply_all_store hstore dc _ _ a'' (with_store_nonneg hstore _ _ Hnc) Hds Ea).
         cbn [a_store with_store h_entries]. apply tall_tdel. exact HJ.
       + unfold proxy_receive in Em. destruct (proxy_validate _ s); try discriminate.
-        inversion Em; subst a' ds. repeat split; auto.
+        inversion Em; subst a' ds. split; [|split; [|split]]; auto.
         intros a'' Ea. inversion Ea; subst a''. exact HJ.
       + unfold proxy_receive in Em. destruct (proxy_validate _ s); try discriminate.
-        inversion Em; subst a' ds. repeat split; auto.
+        inversion Em; subst a' ds. split; [|split; [|split]]; auto.
         intros a'' Ea. inversion Ea; subst a''. exact HJ.
   Qed.
 
@@ -317,20 +452,20 @@ Section Tables.
     split.
     - intros a a' HJ Hs _. unfold J_common in *. rewrite Hs. exact HJ.
     - intros s. unfold common_lookup. cbv zeta. repeat destruct (bytes_eqb _ _); discriminate.
-    - intros s m a El HJ Hn Hs. unfold common_lookup in El. cbv zeta in El.
+    - intros s m a El HJ Hn Hs. assert (Hd : data_ok (s_data s)) by (split; apply Hs). unfold common_lookup in El. cbv zeta in El.
       repeat (match type of El with context [bytes_eqb ?x ?y] => destruct (bytes_eqb x y) end;
               [inversion El; subst m; clear El|]); try discriminate.
-      + unfold deposit_qsr_receive. destruct (deposit_qsr_validate s); discriminate.
-      + unfold withdraw_qsr_receive. destruct (withdraw_qsr_validate s); try discriminate. destruct (Z.eqb _ 0); discriminate.
-      + unfold collect_receive. destruct (collect_validate s); try discriminate.
+      + unfold deposit_qsr_receive. pose proof (deposit_qsr_validate_no_panic s). destruct (deposit_qsr_validate s); [discriminate|discriminate|contradiction].
+      + unfold withdraw_qsr_receive. pose proof (withdraw_qsr_validate_no_panic s). destruct (withdraw_qsr_validate s); [|discriminate|contradiction]. destruct (Z.eqb _ 0); discriminate.
+      + unfold collect_receive. pose proof (collect_validate_no_panic s). destruct (collect_validate s); [|discriminate|contradiction].
         destruct (tget _ _) as [[z q]|]; destruct (_ && _); discriminate.
-      + unfold donate_receive. destruct (donate_validate s); discriminate.
+      + unfold donate_receive. pose proof (donate_validate_no_panic s). destruct (donate_validate s); [discriminate|discriminate|contradiction].
     - intros s m a a' ds El HJ Hn Hs Em. unfold common_lookup in El. cbv zeta in El.
       pose proof (credited_nonneg cstore a s Hn Hs) as Hnc.
       repeat (match type of El with context [bytes_eqb ?x ?y] => destruct (bytes_eqb x y) end;
               [inversion El; subst m; clear El|]); try discriminate.
       + unfold deposit_qsr_receive in Em. destruct (deposit_qsr_validate s); try discriminate.
-        inversion Em; subst a' ds. repeat split; auto.
+        inversion Em; subst a' ds. split; [|split; [|split]]; auto.
         intros a'' Ea. inversion Ea; subst a''. unfold J_common. cbn [a_store with_store q_dep].
         apply tall_tput; [exact HJ | apply u256_nonneg].
       + unfold withdraw_qsr_receive in Em. destruct (withdraw_qsr_validate s); try discriminate.
@@ -340,7 +475,7 @@ Section Tables.
         pose proof (HJ _ _ Eg) as Hv. cbn beta in Hv.
         assert (Hds : Forall ds_ok [{| d_to := s_from s; d_amount := v; d_zts := ZtsQsr; d_data := [] |}]).
         { constructor; [|constructor]. split; cbn; [exact Hv | intros _; exact zts_qsr_not_zero]. }
-        repeat split; auto.
+        split; [|split; [|split]]; auto.
         intros a'' Ea. unfold J_common.
         rewrite (apply_all_store cstore dc _ _ a'' (with_store_nonneg cstore _ _ Hnc) Hds Ea).
         cbn [a_store with_store q_dep]. apply tall_tdel. exact HJ.
@@ -350,12 +485,133 @@ Section Tables.
         destruct ((znn =? 0) && (qsr =? 0)); [discriminate|]. inversion Em; subst a' ds. clear Em.
         assert (Hds : Forall ds_ok ((if 0 <? znn then [mint_call true znn] else []) ++ (if 0 <? qsr then [mint_call false qsr] else []))).
         { apply Forall_app. split; [destruct (0 <? znn)|destruct (0 <? qsr)]; repeat constructor; cbn; lia. }
-        repeat split; auto.
+        split; [|split; [|split]]; auto.
         intros a'' Ea. unfold J_common.
         rewrite (apply_all_store cstore dc _ _ a'' (with_store_nonneg cstore _ _ Hnc) Hds Ea).
         cbn [a_store with_store q_dep]. exact HJ.
       + unfold donate_receive in Em. destruct (donate_validate s); try discriminate.
-        inversion Em; subst a' ds. repeat split; auto.
+        inversion Em; subst a' ds. split; [|split; [|split]]; auto.
         intros a'' Ea. inversion Ea; subst a''. exact HJ.
   Qed.
+
+  (* ---------------- token (Mint, Burn, UpdateToken; IssueToken is explored by the harness only) *)
+  Definition token_lookup (s : send) : lres tstore :=
+    let sl := sel_of (s_data s) in
+    if bytes_eqb sl Sel_token_Mint then LFound mint_receive
+    else if bytes_eqb sl Sel_token_Burn then LFound burn_receive
+    else if bytes_eqb sl Sel_token_UpdateToken then LFound update_token_receive
+    else LNotFound.
+  (* no token is registered under the zero token standard *)
+  Definition J_token (a : cacct tstore) : Prop := tget (a_store a) zero_zts = None.
+
+  Lemma tget_some_not_zero (a : cacct tstore) z tk : J_token a -> tget (a_store a) z = Some tk -> z <> zero_zts.
+  Proof. intros HJ E ->. unfold J_token in HJ. congruence. Qed.
+
+  Lemma token_table_ok : table_ok tstore dc J_token token_lookup.
+  Proof.
+    split.
+    - intros a a' HJ Hs _. unfold J_token in *. rewrite Hs. exact HJ.
+    - intros s. unfold token_lookup. cbv zeta. repeat destruct (bytes_eqb _ _); discriminate.
+    - intros s m a El HJ Hn Hs. assert (Hd : data_ok (s_data s)) by (split; apply Hs).
+      unfold token_lookup in El. cbv zeta in El.
+      repeat (match type of El with context [bytes_eqb ?x ?y] => destruct (bytes_eqb x y) end;
+              [inversion El; subst m; clear El|]); try discriminate.
+      + unfold mint_receive. pose proof (mint_validate_no_panic s Hd).
+        destruct (mint_validate s) as [[[z amt] recv]| |]; [|discriminate|contradiction].
+        destruct (tget _ _); [|discriminate]. ifs.
+      + unfold burn_receive. pose proof (burn_validate_no_panic s).
+        destruct (burn_validate s); [|discriminate|contradiction].
+        destruct (tget _ _); [|discriminate]. destruct (_ && _); [discriminate|].
+        unfold sub_balance. cbn [a_bal with_store].
+        pose proof (credited_bal tstore a s Hn).
+        replace (s_amount s <=? bal_get (a_bal (credited tstore a s)) (s_zts s)) with true by (symmetry; lia). discriminate.
+      + unfold update_token_receive. pose proof (update_token_validate_no_panic s Hd).
+        destruct (update_token_validate s) as [[[[z o] mi] bu]| |]; [|discriminate|contradiction].
+        destruct (tget _ _); [|discriminate]. ifs.
+    - intros s m a a' ds El HJ Hn Hs Em. unfold token_lookup in El. cbv zeta in El.
+      pose proof (credited_nonneg tstore a s Hn Hs) as Hnc.
+      repeat (match type of El with context [bytes_eqb ?x ?y] => destruct (bytes_eqb x y) end;
+              [inversion El; subst m; clear El|]); try discriminate.
+      + (* mint *)
+        unfold mint_receive in Em. destruct (mint_validate s) as [[[z amt] recv]| |] eqn:Ev; try discriminate.
+        rewrite credited_store in Em.
+        destruct (tget (a_store a) z) as [tk|] eqn:Eg; [|discriminate].
+        assert (Hamt : 0 < amt).
+        { unfold mint_validate in Ev. destruct (unpack_args _ _ _); try discriminate. repeat (vcase Ev). inversion Ev; subst. lia. }
+        destruct (negb (t_mintable tk)); [discriminate|].
+        destruct (t_max tk - t_total tk <? amt); [discriminate|].
+        destruct ((bytes_eqb z ZtsZnn || bytes_eqb z ZtsQsr) && negb (s_from_embedded s)); [discriminate|].
+        destruct (negb (bytes_eqb z ZtsZnn || bytes_eqb z ZtsQsr) && negb (bytes_eqb (t_owner tk) (s_from s))); [discriminate|].
+        inversion Em; subst a' ds. clear Em.
+        pose proof (tget_some_not_zero a z tk HJ Eg) as Hz.
+        assert (Hds : Forall ds_ok [{| d_to := recv; d_amount := amt; d_zts := z; d_data := if is_embedded recv then Sel_common_Donate else [] |}]).
+        { constructor; [|constructor]. split; cbn; [lia | intros _; exact Hz]. }
+        assert (Hn' : nonneg tstore (add_balance tstore (with_store (credited tstore a s) (tput (a_store a) z
+                  {| t_owner := t_owner tk; t_name := t_name tk; t_symbol := t_symbol tk; t_domain := t_domain tk;
+                     t_total := u256 (t_total tk + amt); t_max := t_max tk; t_decimals := t_decimals tk;
+                     t_mintable := t_mintable tk; t_burnable := t_burnable tk; t_utility := t_utility tk |})) z amt)).
+        { apply add_balance_nonneg; [apply with_store_nonneg; exact Hnc | lia]. }
+        split; [|split; [|split]]; auto.
+        intros a'' Ea. unfold J_token.
+        rewrite (apply_all_store tstore dc _ _ a'' Hn' Hds Ea).
+        cbn [a_store add_balance with_bal with_store]. rewrite tget_tput.
+        rewrite bytes_eqb_neq by exact Hz. exact HJ.
+      + (* burn *)
+        unfold burn_receive in Em. destruct (burn_validate s); try discriminate.
+        rewrite credited_store in Em.
+        destruct (tget (a_store a) (s_zts s)) as [tk|] eqn:Eg; [|discriminate].
+        destruct (_ && _); [discriminate|].
+        unfold sub_balance in Em. cbn [a_bal with_store] in Em.
+        pose proof (credited_bal tstore a s Hn) as Hb.
+        replace (s_amount s <=? bal_get (a_bal (credited tstore a s)) (s_zts s)) with true in Em by (symmetry; lia).
+        inversion Em; subst a' ds. clear Em.
+        pose proof (tget_some_not_zero a _ tk HJ Eg) as Hz.
+        split; [|split; [|split]].
+        * reflexivity.
+        * intros z. unfold with_bal, with_store. cbn [a_bal]. rewrite bal_get_set.
+          destruct (bytes_eqb (s_zts s) z) eqn:Ez; [apply bytes_eqb_eq in Ez; subst z; apply Z.le_0_sub; exact Hb | apply Hnc].
+        * constructor.
+        * intros a'' Ea. inversion Ea; subst a''. unfold J_token. cbn [a_store with_bal with_store].
+          rewrite tget_tput. rewrite bytes_eqb_neq by exact Hz. exact HJ.
+      + (* update *)
+        unfold update_token_receive in Em. destruct (update_token_validate s) as [[[[z o] mi] bu]| |]; try discriminate.
+        rewrite credited_store in Em.
+        destruct (tget (a_store a) z) as [tk|] eqn:Eg; [|discriminate].
+        repeat (match type of Em with context [if ?c then _ else _] => destruct c end; try discriminate).
+        all: inversion Em; subst a' ds; clear Em.
+        all: pose proof (tget_some_not_zero a z tk HJ Eg) as Hz.
+        all: split; [|split; [|split]]; auto.
+        all: intros a'' Ea; inversion Ea; subst a''; unfold J_token; cbn [a_store with_store];
+             rewrite tget_tput; rewrite bytes_eqb_neq by exact Hz; exact HJ.
+  Qed.
 End Tables.
+
+(* ================================================================ the vm theorems instantiated *)
+Section Instances.
+  Variable dc : dsend -> option Z.
+
+  Theorem plasma_completes e a s : nonneg pstore a -> J_plasma a -> send_ok s -> dc (refund_of s) = None ->
+    outcome_ok pstore J_plasma a s (generate_receive pstore dc (plasma_lookup e) a s).
+  Proof. intros. apply vm_completes; auto using plasma_table_ok. Qed.
+  Theorem stake_completes e a s : env_ok e -> nonneg sstore a -> J_stake a -> send_ok s -> dc (refund_of s) = None ->
+    outcome_ok sstore J_stake a s (generate_receive sstore dc (stake_lookup e) a s).
+  Proof. intros. apply vm_completes; auto using stake_table_ok. Qed.
+  Theorem common_completes self a s : nonneg cstore a -> J_common a -> send_ok s -> dc (refund_of s) = None ->
+    outcome_ok cstore J_common a s (generate_receive cstore dc (common_lookup self) a s).
+  Proof. intros. apply vm_completes; auto using common_table_ok. Qed.
+  Theorem token_completes a s : nonneg tstore a -> J_token a -> send_ok s -> dc (refund_of s) = None ->
+    outcome_ok tstore J_token a s (generate_receive tstore dc token_lookup a s).
+  Proof. intros. apply vm_completes; auto. apply (token_table_ok dc (fun _ _ => []) []). Qed.
+
+  Variable H : Z -> bytes -> bytes.
+  Theorem htlc_completes e a s : nonneg hstore a -> J_htlc a -> send_ok s -> dc (refund_of s) = None ->
+    outcome_ok hstore J_htlc a s (generate_receive hstore dc (htlc_lookup H e) a s).
+  Proof. intros. apply vm_completes; auto using htlc_table_ok. Qed.
+
+  (* any queue of calls to the htlc contract (the one with the most methods) is worked off completely *)
+  Theorem htlc_inbox_never_wedged e q : Forall (fun s => send_ok s /\ dc (refund_of s) = None) q ->
+    forall a, nonneg hstore a -> J_htlc a ->
+    exists a', process_all hstore dc (htlc_lookup H e) a q = Some a' /\ a_cursor a' = a_cursor a + Z.of_nat (length q) /\
+               nonneg hstore a' /\ J_htlc a'.
+  Proof. intros. apply inbox_never_wedged; auto using htlc_table_ok. Qed.
+End Instances.
